@@ -75,7 +75,7 @@ theorem frame_snoc_length (c : Cfg α) (cur : List (List α)) (m : List α) :
     (frame c (cur ++ [m])).length = (frame c cur).length + lineSize c m := by
   rw [frame_append, frame_single]; simp only [List.length_append, lineSize]
 
-theorem frame_eq_nil_iff (c : Cfg α) (hne : c.ending ≠ []) (p : List (List α)) :
+theorem frame_nil_iff_g (c : Cfg α) (hne : c.ending ≠ []) (p : List (List α)) :
     frame c p = [] ↔ p = [] := by
   constructor
   · intro h
@@ -226,7 +226,7 @@ theorem corner_facts (c : Cfg α) (hne : c.ending ≠ []) (p : List (List α)) (
   obtain ⟨⟨hfe, hrq⟩, hor⟩ := hc
   have hpos := ending_length_pos c hne
   have hm0 : m.length = 0 := by omega
-  exact ⟨(frame_eq_nil_iff c hne p).mp hfe, List.eq_nil_of_length_eq_zero hm0, by omega⟩
+  exact ⟨(frame_nil_iff_g c hne p).mp hfe, List.eq_nil_of_length_eq_zero hm0, by omega⟩
 
 theorem cornerWrites_corner (c : Cfg α) (hne : c.ending ≠ []) (hel : c.ending.length = c.cap) :
     cornerWrites c ([] : List α) = [c.ending] := by
@@ -286,7 +286,7 @@ theorem specOps_emits_greedy (c : Cfg α) (hne : c.ending ≠ []) (ms : List (Li
     · -- the pending group is flushed first
       have hfne : frame c p ≠ [] := by
         intro h; rw [h] at hfl; simp only [List.length_nil] at hfl; omega
-      have hpne : p ≠ [] := fun h => hfne ((frame_eq_nil_iff c hne p).mpr h)
+      have hpne : p ≠ [] := fun h => hfne ((frame_nil_iff_g c hne p).mpr h)
       have hpe : p.isEmpty = false := by simpa using hpne
       have hnf : ¬ (frame c p).length + (m.length + c.ending.length) ≤ c.cap := by omega
       have epack : pack c p (m :: ms) = p :: pack c [m] ms := by
